@@ -194,3 +194,38 @@ pub fn lpc_stress_case_strategy() -> BoxedStrategy<StreamCase> {
         })
         .boxed()
 }
+
+/// Streams with MANY small frames, so that multi-byte frame numbers (>= 128, >= 2048, in the thorough tier
+/// >= 65536) occur and the largest / smallest frames of the stream carry such numbers.
+/// block size 32, mono; signals: silence, sine + noise, near-silence followed by loud noise.
+pub fn many_frames_cases(thorough: bool) -> Vec<StreamCase> {
+    use crate::gen::{ChanSpec, CfgSpec, InputSpec, Seg};
+    let mut counts: Vec<usize> = vec![127, 128, 129, 130, 1030, 2046, 2047, 2048, 2049, 2050, 2100, 4100];
+    if thorough {
+        counts.extend([32767, 32768, 32769, 65535, 65536, 65537, 70000]);
+    }
+    let mut v = vec![];
+    for (ci, &frames) in counts.iter().enumerate() {
+        for sig in 0..3u8 {
+            for entry in [Entry::Single, Entry::Multi, Entry::Frames] {
+                if frames > 5000 && (sig != 2 || entry == Entry::Frames) {
+                    continue;
+                }
+                let mut cfg = CfgSpec::default();
+                cfg.block_size = 32 + (ci % 2) * 32;
+                cfg.multithread = entry == Entry::Multi;
+                cfg.workers = Some(2);
+                let segs = match sig {
+                    0 => vec![Seg { class: 0, amp: 0, p: 0 }],
+                    1 => vec![Seg { class: 4, amp: 3, p: 777 }],
+                    // quiet first, loud at the end: the largest frames carry the largest numbers
+                    _ => vec![Seg { class: 15, amp: 0, p: 1 }, Seg { class: 15, amp: 0, p: 2 }, Seg { class: 2, amp: 3, p: 3 }],
+                };
+                let len = frames * cfg.block_size - if sig == 1 { 5 } else { 0 };
+                let inp = InputSpec { channels: 1, bps: if sig == 0 { 8 } else { 16 }, rate: 32000, len, chans: vec![ChanSpec { segs }], rel: 0, seed: 1000 + frames as u64 + sig as u64, explicit: None };
+                v.push(StreamCase { cfg, inp, entry, src: SrcKind::Mem });
+            }
+        }
+    }
+    v
+}
